@@ -166,6 +166,43 @@ def run(R, tier, seed, driver_ok):
             pass
         except Exception as e:
             R.violation(f'components_from_metric/non-symmetric/{type(e).__name__}', f'non-symmetric matrix raised {type(e).__name__}', {'M': A})
+    # ---- small integer matrices built to pass cheap "is it diagonal?" tests without being diagonal: off-diagonal entries that
+    #      cancel in the total sum, in every row sum, or sit only in the far corner — with a spectrum clearly of one kind
+    from metric_learn.exceptions import NonPSDError as _NPSD
+    for rep in range(12 if tier == 'quick' else 120):
+        d = int(rng.randint(3, 7))
+        S = np.zeros((d, d))
+        fam = rep % 3
+        if fam == 0:            # total sum of the off-diagonal entries is 0
+            i_, j_, k_ = rng.choice(d, 3, replace=False)
+            S[i_, j_] = S[j_, i_] = 1.0; S[i_, k_] = S[k_, i_] = -1.0
+        elif fam == 1:          # every row of off-diagonal entries sums to 0 (a signed cycle needs an even length: use 4 indices)
+            a_, b_, c_, e_ = (rng.choice(d, 4, replace=False) if d >= 4 else (0, 1, 2, 0))
+            if d >= 4:
+                for (p_, q_, v_) in ((a_, b_, 1.0), (b_, c_, -1.0), (c_, e_, 1.0), (e_, a_, -1.0)):
+                    S[p_, q_] = S[q_, p_] = v_
+            else:
+                S[0, 1] = S[1, 0] = 1.0; S[0, 2] = S[2, 0] = -1.0
+        else:                   # only the far corner
+            S[0, d - 1] = S[d - 1, 0] = 1.0
+        for amp, diag, exp in ((1.0, float(d + 1), 'ok'), (5.0, 1.0, 'nonpsd')):
+            M = diag * np.eye(d) + amp * S
+            wmin = np.linalg.eigvalsh(M).min()
+            if (exp == 'ok') != (wmin > 0.1):
+                continue
+            case = {'M': M, 'kind': f'structured-family-{fam}', 'expected': exp}
+            R.case(('c20-structured', M.tobytes().hex()), True, sample={'kind': f'structured-family-{fam}', 'd': d, 'expected': exp}, branch='structured-non-diagonal')
+            try:
+                L = _util.components_from_metric(M.copy())
+                out = 'ok'
+            except _NPSD:
+                out = 'nonpsd'
+            except Exception as e:
+                out = type(e).__name__
+            if out != exp:
+                R.violation(f'components_from_metric/structured/expected-{exp}-got-{out}', f'components_from_metric on a non-diagonal integer matrix whose off-diagonal entries cancel (smallest eigenvalue {wmin:.3g}) → {out}, expected {exp}', case)
+            elif out == 'ok' and np.abs(L.T.dot(L) - M).max() > 1e-9 * np.abs(M).max():
+                R.violation('components_from_metric/structured/LtL', f'LᵀL differs from M by {np.abs(L.T.dot(L) - M).max():.3g} on a non-diagonal integer matrix whose off-diagonal entries cancel', case)
     # ---- initialisers through the public API
     for rep in range(3 if tier == 'quick' else 12):
         d = int(rng.randint(2, 6))
